@@ -11,8 +11,9 @@ inputs `p : Parsed`, all option settings `o : Opts`, every IDNA decoder `puny`, 
 
 * host: `normalize_host_deletion_only` (+ `HostDel`, an explicit relation on label lists);
 * port: `normalize_port`;
-* path: `normalize_path_deletion` (chain resolved path → AMP markers → index page → root rule
-  → trailing slashes → final (un)quoting) and its corollary `normalize_path_sublist`;
+* path: `normalize_path_deletion` / `normalize_path_once` (chain resolved path → at most one AMP
+  marker → index page → root rule → trailing slashes → final (un)quoting) and the corollary
+  `normalize_path_sublist`;
 * query: `normalize_query_sublist`;
 * options: `option_*_off` (one per documented option);
 * `normalize_unparseable_identity`, `normalize_total`;
@@ -265,6 +266,21 @@ theorem normalize_path_deletion (puny : Str → Str) (o : Opts) (hp : Bool) (p :
       rw [if_neg hs]; simp
     · intro c hc; simp at hc
     · intro _; rfl
+
+/-- the same chain with the AMP step sharpened: **at most one** AMP marker is removed
+(`AmpCutOnce`: the path is unchanged, or it is `a ++ m ++ e` with `m` an AMP marker — `.amp`
+or, after a slash, `amp`, ignoring case, with an optional slash — followed only by the end of
+the path `e` (or by `.html` and the end), and becomes `a ++ e`) -/
+theorem normalize_path_once (puny : Str → Str) (o : Opts) (hp : Bool) (p : Parsed) :
+    ∃ p2 p3 p4 pre t,
+      AmpCutOnce false (resolvedPath o p.path) p2 ∧
+      (o.normalizeAmp = false → p2 = resolvedPath o p.path) ∧
+      (p3 = p2 ∨ (o.stripIndex = true ∧ IndexCut p2 p3)) ∧
+      (p4 = p3 ∨ (p3 = ['/'] ∧ p4 = [])) ∧
+      (p4 = pre ++ t ∧ (∀ c ∈ t, c = '/') ∧ (o.stripTrailingSlash = false → t = [])) ∧
+      (normComps puny o hp p).path = finPath o pre := by
+  obtain ⟨p2, p3, p4, pre, t, h2, h2', h3, h4, h5, h6⟩ := normalize_path_deletion puny o hp p
+  exact ⟨p2, p3, p4, pre, t, h2.once, h2', h3, h4, h5, h6⟩
 
 /-- corollary: before the final (un)quoting the path is a subsequence of the resolved path —
 characters are only deleted, never added, changed or re-ordered -/
